@@ -786,6 +786,27 @@ Proof.
   apply Huid. rewrite <- (aget_filter_keys _ _ _ B). exact B.
 Qed.
 
+(* remember.Authenticate's overlay of the request's session view: its uid is the context pid (which
+   [wf] keeps inside the footprint) when the cookie was consumed, the view's own uid otherwise; the
+   other keys are not touched *)
+Definition uid_ok (s : amap) : Prop := bempty (aget k_uid s) = false -> F (aget k_uid s).
+
+Lemma aget_uid_overlay pid s : aget k_uid (aput k_halfauth v_true (aput k_uid pid s)) = pid.
+Proof.
+  unfold aget. rewrite alookup_aput_neq by (intro H; vm_compute in H; discriminate H).
+  rewrite alookup_aput_eq. reflexivity.
+Qed.
+
+Lemma J_remembered_view s : uid_ok s -> JF (remembered_view s) uid_ok.
+Proof.
+  intros Hs.
+  apply (J_with_cpid F (fun o => match o with
+           | Some pid => ret (aput k_halfauth v_true (aput k_uid pid s))
+           | None => ret s end)).
+  intros o Ho. destruct o as [pid|]; apply J_ret; [|exact Hs].
+  unfold uid_ok. rewrite aget_uid_overlay. intros _. apply Ho. reflexivity.
+Qed.
+
 Lemma J_app_stack full tf fr l c r e : JF (app_stack E full tf fr l c r e) (fun _ => True).
 Proof.
   unfold app_stack.
@@ -795,8 +816,14 @@ Proof.
     by (exact (sess_view_uid sess Hs)).
   assert (R' : forall c raw p, alookup k_rm (e_cook (with_sess E sess)) = Some c -> b64url_dec c = Some raw ->
                                rm_parse_pid raw = Some p -> F p) by (exact Hrm).
-  j_go; first [ apply J_remember_mw; assumption | apply J_auth_middleware; assumption
-              | apply J_lock_mw; assumption | apply J_confirm_mw; assumption | apply J_app_handler; assumption ].
+  eapply (J_bind F _ _ uid_ok).
+  - destruct r; [|apply J_ret; exact U'].
+    eapply J_bind; [apply J_remember_mw; assumption|intros _ _]. apply J_remembered_view. exact U'.
+  - intros sess2 U2.
+    assert (U'' : bempty (aget k_uid (e_sess (with_sess E sess2))) = false ->
+                  F (aget k_uid (e_sess (with_sess E sess2)))) by (exact U2).
+    j_go; first [ apply J_auth_middleware; assumption
+                | apply J_lock_mw; assumption | apply J_confirm_mw; assumption | apply J_app_handler; assumption ].
 Qed.
 
 (* the two start states *)
@@ -1325,8 +1352,8 @@ Proof.
                            (if handled0 then ret tt
                             else put_session k_uid (u_pid u') ;;;
                                  handled1 <- fire E EvAfterAuth false ;;
-                                 (if handled1 then ret tt else redirect E (ro_ok p_recover_ok))))
-                else redirect E (ro_ok p_recover_ok))).
+                                 (if handled1 then ret tt else redirect E (ro_ok (p_recover_ok_of (e_cfg E))))))
+                else redirect E (ro_ok (p_recover_ok_of (e_cfg E))))).
       assert (KR : forall ro, pres srm (redirect E ro)) by (intros; apply pres_redirect; exact _).
       destruct (c_recover_login (e_cfg E)); [|apply KR].
       apply pres_bind; [apply pres_srm_fire; discriminate|intros hd1].
